@@ -155,7 +155,13 @@ impl Property for C02 {
                 let np = cfg.n_peers;
                 (Just(cfg), wire_gen::ops_strategy(np, wire_gen::Mix::Tamper, n))
             })
-            .prop_map(|(cfg, ops)| Case { cfg, ops })
+            .prop_map(|(mut cfg, ops)| {
+                // in half of the cases the records are dual-stack (an IPv6 socket next to the IPv4 one), and
+                // in a third of those V itself listens on both families
+                cfg.dual_records = cfg.seqs.get(1).map(|s| s % 2 == 0).unwrap_or(false);
+                cfg.v_dual_listen = cfg.dual_records && cfg.seqs.get(2).map(|s| *s == 2).unwrap_or(false);
+                Case { cfg, ops }
+            })
             .boxed()
     }
     fn run(case: &Case) -> CaseReport {
@@ -165,7 +171,7 @@ impl Property for C02 {
         rep
     }
     fn rule() -> String {
-        "schedules (<=40 quick / <=100 thorough ops) of honest exchanges among 2..4 real handlers (all request kinds, fresh / re-keyed sessions via restarts, record-less contacts) in which the network applies to ANY logged datagram of any kind: a bit flip in a chosen region (IV, static header, nonce, auth-data size, auth-data, ciphertext, tag; on the raw bytes or in the unmasked domain), truncation to/by n bytes, extension, byte insertion/deletion, header/body and IV splices with another datagram, auth-data swap between datagrams, re-masking for another node id with delivery to that node, redirection to another node, re-injection from another source address. Oracle: every Request/Response a handler surfaces must (a) be caused by a datagram byte-identical to one an honest peer emitted for exactly this node, (b) presented from that peer's address, (c) be attributed to that peer's (id, address), and (d) equal a message that peer's application (or its handler's internal record request) handed over for this node. Non-trivial = a tampered / re-addressed datagram that still decodes was injected while the receiver held a session with the claimed source.".into()
+        "schedules (<=40 quick / <=100 thorough ops) of honest exchanges among 2..4 real handlers (all request kinds, fresh / re-keyed sessions via restarts, record-less contacts) in which the network applies to ANY logged datagram of any kind: a bit flip in a chosen region (IV, static header, nonce, auth-data size, auth-data, ciphertext, tag; on the raw bytes or in the unmasked domain), truncation to/by n bytes, extension, byte insertion/deletion, header/body and IV splices with another datagram, auth-data swap between datagrams, re-masking for another node id with delivery to that node, redirection to another node, re-injection from another source address (an attacker's, another node's, another port of the peer's IP, the IPv4-mapped form, the other socket a dual-stack record advertises - also when the receiver itself listens on both families). Oracle: every Request/Response a handler surfaces must (a) be caused by a datagram byte-identical to one an honest peer emitted for exactly this node, (b) presented from that peer's address, (c) be attributed to that peer's (id, address), and (d) equal a message that peer's application (or its handler's internal record request) handed over for this node. Non-trivial = a tampered / re-addressed datagram that still decodes was injected while the receiver held a session with the claimed source.".into()
     }
     fn assumptions() -> Vec<String> {
         vec![
